@@ -87,6 +87,7 @@ class World:
         self.log: list[Any] = []  # observation trace
         self.closed = False
         self.write_fault: Exception | None = None  # sync flavour: transport.write raises
+        self.write_faults_raised = 0
         self.ret_hook: Callable[[str], None] | None = None
         self.transports: list[Any] = []
         self.recycle_rx = RECYCLE_RX[0]
@@ -104,6 +105,7 @@ class World:
                 if world.write_fault is not None:
                     err, world.write_fault = world.write_fault, None
                     world.note("write_fault_raised", type(err).__name__)
+                    world.write_faults_raised += 1
                     raise err
                 super().write(data)
 
